@@ -66,6 +66,7 @@ struct vk_hooks {
 	/* read()/write() issued by library or harness code (is_write, fd, size) -- before and after the real call */
 	void (*io_pre)(int is_write, int fd, size_t n);
 	void (*io_post)(int is_write, int fd, ssize_t result);
+	void (*read_post)(int fd, void *buf, ssize_t result);   /* what a read() handed to its caller */
 };
 
 extern struct vk_hooks vk_hooks;
